@@ -5,5 +5,6 @@ cd "$(dirname "$0")"
 export GOFLAGS=-mod=mod GOPROXY=off GOSUMDB=off GOTOOLCHAIN=local GOCACHE=/verif/.gocache
 mkdir -p /verif/bin /verif/evidence /verif/replays
 ( cd /verif/mc && cp -f /repo/go.sum go.sum && go build -o /verif/bin/mc . )
+( cd /verif/instr && go build -o /verif/bin/instr . )
 ( cd /verif/race && cp -f /repo/go.sum go.sum && go build -race -o /verif/bin/race . )
 echo setup ok
